@@ -267,6 +267,7 @@ def main():
             import contextlib
 
             from ipv8.database import IgnoreCommits
+            before = set(known)
             try:
                 with contextlib.ExitStack() as stack:
                     for d in item["dbs"]:
@@ -282,6 +283,12 @@ def main():
                         raise BatchAborted
             except BatchAborted:
                 pass
+            except sqlite3.OperationalError:
+                # the database refused inside the block or when it was left: the application takes nothing the block
+                # was storing for stored (it asks the database again before it builds on any of it)
+                for name in set(known) - before:
+                    del known[name]
+                raise
         elif item["op"] == "credential":
             after = find_metadata(item["after"]) if item.get("after") else None
             cred = pseudonym.create_credential(hashlib.sha3_256(item["name"].encode()).digest(),
